@@ -3,6 +3,7 @@ import Sebuf.DriverC12
 import Sebuf.DriverC16
 import Sebuf.DriverC02
 import Sebuf.DriverC01
+import Sebuf.DriverC09
 namespace Sebuf.DriverOps
 open Lean (Json)
 def dispatch (op : String) (j : Json) : Json :=
@@ -14,6 +15,7 @@ def dispatch (op : String) (j : Json) : Json :=
   | "bind_case" => Sebuf.Driver.opBindCase j
   | "call_outcome" => Sebuf.Driver.opCallOutcome j
   | "client_url" => Sebuf.Driver.opClientUrl j
+  | "header_check" => Sebuf.Driver.opHeaderCheck j
   | "strfn" => Sebuf.Driver.opStrFn j
   | _ => Json.mkObj [("driver_err", Json.str ("unknown op " ++ op))]
 end Sebuf.DriverOps
